@@ -87,6 +87,15 @@ func (tr *Translator) sortOfText(txt string) (string, types.Type) {
 		if strings.Contains(txt, "JV") {
 			tr.jsonDecls()
 		}
+		// struct sorts S_<Name> mentioned in a raw sort are declared first
+		for _, w := range strings.FieldsFunc(txt[4:], func(r rune) bool { return r == ' ' || r == '(' || r == ')' }) {
+			if strings.HasPrefix(w, "S_") {
+				func() {
+					defer func() { recover() }()
+					tr.u.sortOf(tr.resolveType(w[2:]))
+				}()
+			}
+		}
 		return txt[4:], nil
 	}
 	t := tr.resolveType(txt)
@@ -162,8 +171,9 @@ func (e *Env) eval(x Expr) *Val {
 		base := e.eval(x.X)
 		idx := e.eval(x.I)
 		if base.T == nil {
-			// raw SMT array
-			return mkVal("(select "+base.E()+" "+idx.E()+")", arrayElemSort(base.Sort), nil)
+			// raw SMT array (a struct-sorted element keeps its Go type so that fields can be selected)
+			es := arrayElemSort(base.Sort)
+			return mkVal("(select "+base.E()+" "+idx.E()+")", es, u.sortTypes[es])
 		}
 		switch bt := base.T.Underlying().(type) {
 		case *types.Slice:
@@ -851,6 +861,13 @@ func (e *Env) evalCall(x *Call) *Val {
 			evalFail("encOf of untyped value")
 		}
 		return mkVal("("+tr.encFn(v.T)+" "+v.E()+")", "JV", nil)
+	case "encTextOf":
+		// encTextOf(x): the text json.Marshal produces for x (by the static type of x)
+		v := arg(0)
+		if v.T == nil {
+			evalFail("encTextOf of untyped value")
+		}
+		return mkVal("("+tr.encTextFn(v.T)+" "+v.E()+")", "String", types.Typ[types.String])
 	case "encOKOf":
 		// encOKOf(x): json.Marshal(x) succeeds (by the static type of x)
 		v := arg(0)
